@@ -222,12 +222,12 @@ func c13Queued(w *mon.W, no int) {
 }
 
 func runC13(w *mon.W) {
-	for i := 0; i < w.Scale(600, 20000); i++ {
+	for i := 0; i < w.Scale(600, 100000); i++ {
 		if w.Mine(i) {
 			c13Queued(w, i)
 		}
 	}
-	seqs := w.Scale(500, 20000)
+	seqs := w.Scale(500, 60000)
 	for i := 0; i < seqs; i++ {
 		if !w.Mine(i) {
 			continue
